@@ -8,9 +8,12 @@
            contract-level caches ContractContext.frontier_states and .visited, with
            the generator laziness of _compute_frontier and the consumer loop's `break`
            (--width, --early-exit) modelled by a budget.
+   Part C  per-test configuration: run_tests gives every test its own config (with_devdoc); which
+           config explores the target transactions of the SHARED frontier is regenerated from
+           __main__.py (Gen/GenFrontierFlow.v: provenance of the `args` that reach run_target_function).
    Part N  fresh-symbol naming: uid() as a stream; names are (prefix, uid, counter).     *)
 From Coq Require Import String ZArith List Bool Lia.
-From HV Require Import Gen.GenCopies Spec.IsolationSpec.
+From HV Require Import Gen.GenCopies Gen.GenFrontierFlow Spec.IsolationSpec.
 Import ListNotations.
 Open Scope Z_scope.
 
@@ -304,6 +307,49 @@ Definition run_contract (sys : system) (s0 : Z) (ts : list test) : list (list Z)
 (* what TestResult shows of the paths: exit code, paths (path_id + 1, so at least 1), successes *)
 Definition result_of (paths : list Z) : Z * Z * Z :=
   (verdict_of paths, Z.max 1 (Z.of_nat (length paths)), countZ 0 paths).
+
+(* ================================================================ Part C: per-test configuration *)
+
+(* run_tests: test_config = with_devdoc(ctx.args, funsig, ...); FunctionContext(args=test_config,
+   contract_ctx=ctx, max_call_depth=test_config.invariant_depth | 0).  A configuration is an
+   integer; the test's own body (t_body) and depth (t_depth) are already those of ITS config. *)
+Record ctest := mkCTest { ct_cfg : Z; ct_test : test }.
+
+Definition pick_cfg (s : cfg_src) (contract_cfg test_cfg : Z) : Z :=
+  match s with SrcContract => contract_cfg | SrcTest => test_cfg end.
+
+(* the config under which _compute_frontier -> run_target_contract -> run_target_function explore
+   the target transactions while a test with config tc runs in a contract with config cc: what
+   the code does (explore_cfg_src is regenerated from the source on every run) *)
+Definition frontier_cfg : Z -> Z -> Z := pick_cfg explore_cfg_src.
+
+(* what one target transaction can do depends on the config that explores it (loop bound,
+   array / bytes lengths, ...): cstep e; the state id does not *)
+Definition sys_of (cstep : Z -> Z -> list Z) (sd : Z -> Z) (e : Z) : system := mkSystem (cstep e) sd.
+
+Section Configured.
+  Variable fc : Z -> Z -> Z.               (* contract config -> running test's config -> exploring config *)
+  Variable cstep : Z -> Z -> list Z.
+  Variable sd : Z -> Z.
+  Variable cc : Z.                         (* ContractContext.args *)
+
+  (* run_test with the frontier depths it needs computed (on a cache miss) under fc cc (its config);
+     cached depths are reused whoever computed them: the cache key is the depth alone *)
+  Definition run_test_c (t : ctest) (c : ctx) : list Z * ctx :=
+    run_test (sys_of cstep sd (fc cc (ct_cfg t))) (ct_test t) c.
+
+  Fixpoint run_tests_c (ts : list ctest) (c : ctx) : list (list Z) * ctx :=
+    match ts with
+    | [] => ([], c)
+    | t :: r =>
+        let '(p, c1) := run_test_c t c in
+        let '(ps, c2) := run_tests_c r c1 in
+        (p :: ps, c2)
+    end.
+
+  Definition run_contract_c (s0 : Z) (ts : list ctest) : list (list Z) :=
+    fst (run_tests_c ts (mkCtx [[s0]] [sd s0])).
+End Configured.
 
 (* ================================================================ Part N: naming *)
 
